@@ -67,3 +67,11 @@ Proof. vm_compute. reflexivity. Qed.
 Example c06_example :
   write_all [WPending; WAccept 0; WPending; WAccept 1; WAccept 9] [1;3;0;0] = ([1;3;0;0], WOk, []).
 Proof. vm_compute. reflexivity. Qed.
+
+(* blocking connection, write half FAILING inside the keep-alive reply (after any number of its bytes, with any error): the
+   keep-alive is handed over (WOk) only when the whole reply has reached the transport; after a failure what reached it is a
+   strict prefix of the reply and the failure is what the caller gets instead of the packet *)
+Theorem c06_reply_whole_or_the_error_is_returned : forall pong ws d r ws',
+  reply_then_return pong ws = (d, r, ws') ->
+  (r = WOk -> d = pong) /\ (forall e, r = WErr e -> exists rest, pong = d ++ rest /\ rest <> []).
+Proof. exact reply_whole_or_error. Qed.
